@@ -447,6 +447,8 @@ class FcpV2Transformer(Transformer):
             ).transform(fcp_ast)
         except VisitError as e:
             return error(f"Invalid {e.rule} in {filename.name}: {e.orig_exc}")
+        except RecursionError:
+            return error(f"Types or values in {filename.name} are nested too deeply")
 
         self.fcp.merge(
             fcp.map_err(
@@ -595,6 +597,8 @@ def _get_fcp(
         ).transform(fcp_ast)
     except VisitError as e:
         return error(f"Invalid {e.rule} in {filename.name}: {e.orig_exc}")
+    except RecursionError:
+        return error(f"Types or values in {filename.name} are nested too deeply")
 
     return Ok(fcp.attempt())
 
